@@ -219,6 +219,76 @@ Fixpoint prepend_n (n : nat) (seg : N) (a : attr) (asn : N) : res attr :=
 Definition empty_as_path : attr := {| a_code := AS_PATH; a_flags := 64; a_data := DBin [] |}.
 
 (* ------------------------------------------------------------------ *)
+(* as_path_string (table/src/policy.rs): the AS_PATH as GoBGP prints it   *)
+
+(* u32::to_string: ASCII decimal digits *)
+Fixpoint dec_loop (fuel : nat) (n : N) (acc : list N) : list N :=
+  match fuel with
+  | O => acc
+  | S f =>
+      let acc' := (48 + n mod 10) :: acc in
+      if n / 10 =? 0 then acc' else dec_loop f (n / 10) acc'
+  end.
+Definition dec_string (n : N) : list N := dec_loop 40 n [].
+
+(* [String]::join(sep) *)
+Fixpoint join (sep : list N) (l : list (list N)) : list N :=
+  match l with
+  | [] => []
+  | [x] => x
+  | x :: r => x ++ sep ++ join sep r
+  end.
+
+(* "{a,b}" AS_SET, "(a b)" AS_CONFED_SEQUENCE, "[a,b]" AS_CONFED_SET, "a b" otherwise *)
+Definition seg_string (t : N) (v : list N) : list N :=
+  let nums := map dec_string v in
+  if t =? SEG_SET then [123] ++ join [44] nums ++ [125]
+  else if t =? SEG_CONFED_SEQ then [40] ++ join [32] nums ++ [41]
+  else if t =? SEG_CONFED_SET then [91] ++ join [44] nums ++ [93]
+  else join [32] nums.
+
+(* a segment whose numbers run past the end of the buffer ends the scan *)
+Fixpoint render_segs (fuel : nat) (b : list N) : list (list N) :=
+  match fuel with
+  | O => []
+  | S f =>
+      match b with
+      | t :: n :: r =>
+          match take_u32s (N.to_nat n) r with
+          | Some (v, r') => seg_string t v :: render_segs f r'
+          | None => []
+          end
+      | _ => []
+      end
+  end.
+
+Definition render_path (b : list N) : list N := join [32] (render_segs (length b) b).
+
+(* Attribute::as_path_origin: the last AS of the path when its last segment is
+   a non-empty AS_SEQUENCE.  A short read ends the scan (after the repair). *)
+Fixpoint origin_loop (fuel : nat) (b : list N) (last : N * list N) : N * list N :=
+  match fuel with
+  | O => last
+  | S f =>
+      match b with
+      | t :: n :: r =>
+          match take_u32s (N.to_nat n) r with
+          | Some (v, r') => origin_loop f r' (t, v)
+          | None => last
+          end
+      | _ => last
+      end
+  end.
+
+Definition as_path_origin (a : attr) : res (option N) :=
+  match attr_binary a with
+  | None => Panic P_UNWRAP_BINARY
+  | Some b =>
+      let '(t, v) := origin_loop (length b) b (0, []) in
+      Ok (if t =? SEG_SEQ then match rev v with x :: _ => Some x | [] => None end else None)
+  end.
+
+(* ------------------------------------------------------------------ *)
 (* communities                                                          *)
 
 Definition bin_of (code : N) (l : list attr) : option (list N) :=
@@ -435,6 +505,12 @@ Section WithRegex.
   Variable rx_comm : N -> N -> bool.
   Variable rx_ext : N -> N -> bool.
   Variable rx_large : N -> N -> bool.
+  (* a general as-path pattern (by id) against the rendered path *)
+  Variable rx_aspath : N -> list N -> bool.
+  (* RpkiTable::validate as a function of the route's prefix and origin AS
+     (state 0 NotFound, 1 Valid, 2 Invalid; None = validate returns None);
+     the outer None = evaluation without an RPKI table *)
+  Variable rpki : option (nlri -> N -> option N).
 
   Definition cpat_match (p : cpat) (c : N) : bool :=
     match p with CExact v => c =? v | CRegex id => rx_comm id c end.
@@ -458,25 +534,27 @@ Section WithRegex.
         let found := existsb (fun n => net_contains n (x_peer x)) l in
         Ok (match o with MInvert => negb found | _ => found end)
     | CSet _ o (SAsPath s) =>
-        match find_attr AS_PATH (r_attrs r) with
-        | None =>
-            Ok (match o with
-                | MAny => false
-                | MAll => match ap_single s with [] => true | _ => false end
-                | MInvert => true
-                end)
-        | Some a =>
-            match ap_single s with
-            | [] => Ok (match o with MAny => false | _ => true end)
-            | _ =>
-                do segs <- aspath_iter a;
-                Ok (match o with
-                    | MAny => existsb (fun m => single_match m segs) (ap_single s)
-                    | MAll => forallb (fun m => single_match m segs) (ap_single s)
-                    | MInvert => negb (existsb (fun m => single_match m segs) (ap_single s))
-                    end)
-            end
-        end
+        let a := find_attr AS_PATH (r_attrs r) in
+        (* single matches walk the segments (AsPathIter::new unwraps the binary) *)
+        do segs <- (match a, ap_single s with
+                    | Some a', _ :: _ => do sg <- aspath_iter a'; Ok (Some sg)
+                    | _, _ => Ok None
+                    end);
+        let single := fun m => match segs with Some sg => single_match m sg | None => false end in
+        (* general patterns see the rendered path; it is built only when needed *)
+        let path := match ap_regex s with
+                    | [] => None
+                    | _ => match a with
+                           | Some a' => match attr_binary a' with Some b => Some (render_path b) | None => None end
+                           | None => None
+                           end
+                    end in
+        let regex := fun id => match path with Some p => rx_aspath id p | None => false end in
+        Ok (match o with
+            | MAny => existsb single (ap_single s) || existsb regex (ap_regex s)
+            | MAll => forallb single (ap_single s) && forallb regex (ap_regex s)
+            | MInvert => negb (existsb single (ap_single s) || existsb regex (ap_regex s))
+            end)
     | CSet _ o (SComm l) =>
         Ok (match_set cpat_match (communities_from_attr (r_attrs r)) l o)
     | CSet _ o (SExt l) =>
@@ -493,7 +571,17 @@ Section WithRegex.
             | Some nh => existsb (ip_eqb (nh_addr nh)) l
             | None => false
             end)
-    | CRpki _ => Ok false
+    | CRpki st =>
+        match rpki with
+        | None => Ok false
+        | Some validate =>
+            do asn <- (match find_attr AS_PATH (r_attrs r) with
+                       | Some a => do o <- as_path_origin a;
+                                   Ok (match o with Some x => x | None => s_local_asn (x_src x) end)
+                       | None => Ok (s_local_asn (x_src x))
+                       end);
+            Ok (match validate (x_net x) asn with Some v => v =? st | None => false end)
+        end
     | CLocalPrefEq v =>
         Ok (match find_attr LOCAL_PREF (r_attrs r) with
             | Some a => match attr_value a with Some w => w =? v | None => false end
